@@ -5,7 +5,7 @@ import sys
 from pathlib import Path
 
 sys.path.insert(0, str(Path(__file__).resolve().parents[1] / 'sched'))
-from prop import SchedProp  # noqa: E402
+from prop import SchedProp, run_workers  # noqa: E402
 from core import Infra  # noqa: E402
 
 
@@ -102,8 +102,8 @@ class C06(SchedProp):
             'a hold-centred command mix (a third of its hold commands aim at a task sitting in a queue), one of them with '
             'job failures, submit failures and stale / duplicate messages, one in four the shared default mix; four '
             'hand-written histories (queued-then-held, future hold, future hold across a restart, hold point) and the '
-            'witness of the recorded finding run first; non-trivial = distinct (commands used, '
-            'restart with holds in force, held-at-spawn, launch-count) class per distinct case')
+            'witness of the recorded finding run first; non-trivial = a hold or hold-point command was issued; classes = (kind, commands '
+            'used, restart with holds in force, held-at-spawn, held while queued, launch-count)')
     kinds = ('cmd', 'cmdany')
     n_quick = 48
     n_thorough = 480
@@ -119,6 +119,18 @@ class C06(SchedProp):
     def corpus(self):
         return [{'id': 'c06-' + k, 'flow': _FLOW, 'seed': 0, 'opts': {}, 'policy': {'restarts': 2}, 'ops': v, 'kind': 'cmd'}
                 for k, v in _CORPUS.items()]
+
+    def impl_batch(self, inputs):
+        # a start-up time-out of the scheduler's server thread (overloaded machine) says nothing about the
+        # case: such cases are run again, on their own
+        res = run_workers(inputs, self.workers)
+        for _attempt in range(2):
+            again = [k for k, r in enumerate(res) if 'error' in r and 'BrokenBarrierError' in r['error']]
+            if not again:
+                break
+            for k, r in zip(again, run_workers([inputs[k] for k in again], 2)):
+                res[k] = r
+        return res
 
     def skip_case(self, inp, raw):
         # the network server thread of a (re)starting Scheduler waits on a barrier with a time-out; on an
@@ -173,6 +185,11 @@ class C06(SchedProp):
                     future = True
         if future:
             tags.append('future-hold')
+        # a hold that lands on a task sitting in a queue (queued, not yet released to job preparation)
+        if any(t['held'] and t['q'] and t['st'] == 'waiting' for o in obs for t in o['pool']):
+            tags.append('held-in-queue')
+        if not ({'hold', 'holdpoint'} & set(tags)):
+            return None        # no hold was ever requested: trivial for this property
         n = sum(len(o['launch']) for o in obs)
         tags.append('launch<5' if n < 5 else 'launch<15' if n < 15 else 'launch>=15')
         return '/'.join(tags)
